@@ -1748,8 +1748,7 @@ def _with_extra_kw(interp, res, extra):
 
 
 EXT_SIGNATURES = {
-    "ConvexHull": ["points"], "interp1d": ["x", "y"], "LinearNDInterpolator": ["points", "values"], "KFold": ["n_splits"],
-    "Ridge": ["alpha"], "KernelRidge": ["alpha"], "RidgeCV": ["alphas"],
+    "ConvexHull": ["points"], "interp1d": ["x", "y"], "LinearNDInterpolator": ["points", "values"],
 }
 
 
